@@ -39,7 +39,7 @@ func init() {
 
 const (
 	c01CaseCPUBudget = 20  // seconds of CPU in a shared worker before the case is re-run alone
-	c01SoloCPUBudget = 600 // seconds of CPU for the solo re-run (quadratic snippet rendering of ~10^4 diagnostics on one 64 KiB line needs minutes)
+	c01SoloCPUBudget = 300 // seconds of CPU for the solo re-run
 )
 
 // ---------------------------------------------------------------------------
@@ -208,10 +208,15 @@ func c01RunCase(c *c01Case, idx int, scratch string) (res c01Result) {
 		opts.Shellcheck = filepath.Join(binDir(), "faketool")
 		opts.Pyflakes = filepath.Join(binDir(), "faketool")
 	}
-	if idx%7 == 3 {
+	if c01Big(c) {
+		// Every diagnostic's snippet echoes its whole source line, so K diagnostics on one line of
+		// L bytes legitimately cost K*L to print (2 GB for 32000 glob errors on a 64 KiB line).
+		// That is output size, not a hang: large inputs are linted without snippets. Snippet
+		// rendering of hostile positions is C16's subject.
+		opts.Oneline = true
+	} else if idx%7 == 3 {
 		opts.Format = "{{json .}}"
-	}
-	if idx%11 == 5 {
+	} else if idx%11 == 5 {
 		opts.Oneline = true
 	}
 	var buf bytes.Buffer
@@ -242,6 +247,16 @@ func c01RunCase(c *c01Case, idx int, scratch string) (res c01Result) {
 	return
 }
 
+// c01Big: some file of the case is larger than 8 KiB.
+func c01Big(c *c01Case) bool {
+	for _, v := range c.Files {
+		if len(v) > 8192 {
+			return true
+		}
+	}
+	return false
+}
+
 var c01CrashRe = regexp.MustCompile(`(?m)^(panic: |fatal error: |goroutine \d+ \[)`)
 
 func c01RunCLI(c *c01Case, idx int, scratch string) (res c01Result) {
@@ -256,7 +271,11 @@ func c01RunCLI(c *c01Case, idx int, scratch string) (res c01Result) {
 	if c.Mode == "cli-stdin" {
 		target = "-" // the workflow arrives on standard input
 	}
-	script := fmt.Sprintf("ulimit -t %d; ulimit -v 3000000; exec %q -no-color -shellcheck=%q -pyflakes=%q %q", c01SoloCPUBudget, bin, tool, tool, target)
+	oneline := ""
+	if c01Big(c) {
+		oneline = "-oneline"
+	}
+	script := fmt.Sprintf("ulimit -t %d; ulimit -v 3000000; exec %q -no-color %s -shellcheck=%q -pyflakes=%q %q", c01SoloCPUBudget, bin, oneline, tool, tool, target)
 	cmd := exec.Command("/bin/sh", "-c", script)
 	cmd.Dir = scratch
 	if c.Mode == "cli-stdin" {
@@ -667,7 +686,7 @@ func (p *c01Parent) absorb(t c01Task, res *c01Result) {
 
 func runC01(r *Run) {
 	r.Rule = "hostile inputs on the four channels (workflow, local action metadata, local reusable workflow, actionlint.yaml): complete YAML kind x tag x position matrix over maximal templates, raw YAML snippets, seeded byte mutations of the repository's corpus, expression fuzz at 32 expression positions, hostile strings at 32 string-parsing positions, scripts up to 300 KB handed to (fake) external tools; each through LintFile / LintFiles / Lint or the real CLI, a share under the -race build (checkptr). Non-trivial = distinct case whose input was visibly handled (>=1 diagnostic or a fatal error) rather than being accepted as clean."
-	r.Assume("bounded time is observed as: no case exceeds 600 s CPU alone, and no worker is quiescent (no CPU progress, all threads asleep, no children) with an unfinished case")
+	r.Assume("bounded time is observed as: no case exceeds 300 s CPU alone, and no worker is quiescent (no CPU progress, all threads asleep, no children) with an unfinished case")
 	r.Assume("hostile files are bounded to 64 KiB (the quantifier's bound); only the tool-scripts family uses larger run: scripts (up to 300 KB)")
 	fams := c01Families(r.Tier)
 	if r.ReplayOf != nil {
@@ -762,6 +781,36 @@ func init() {
 				cs := f.Gen(NewRand(seed, "C01", f.Name).Sub(idx), idx)
 				b, _ := json.MarshalIndent(cs, "", " ")
 				os.Stdout.Write(b)
+			}
+		}
+	}
+}
+
+func init() {
+	subcommands["c01-scan"] = func(args []string) {
+		// c01-scan tier seed family minLine : lists cases whose hostile file has a very long line
+		seed, _ := strconv.ParseUint(args[1], 10, 64)
+		minLine, _ := strconv.Atoi(args[3])
+		for _, f := range c01Families(args[0]) {
+			if f.Name != args[2] {
+				continue
+			}
+			for idx := 0; idx < f.N; idx++ {
+				cs := f.Gen(NewRand(seed, "C01", f.Name).Sub(idx), idx)
+				for k, v := range cs.Files {
+					if v == c01BaseFiles()[k] {
+						continue
+					}
+					max := 0
+					for _, l := range strings.Split(v, "\n") {
+						if len(l) > max {
+							max = len(l)
+						}
+					}
+					if max >= minLine {
+						fmt.Printf("%d\t%s\tsize=%d\tmaxline=%d\tmode=%s\n", idx, k, len(v), max, cs.Mode)
+					}
+				}
 			}
 		}
 	}
